@@ -20,14 +20,18 @@ import (
 )
 
 // Step is one message of a history. Kind: "tpl" (template with Fields), "trunc" (template
-// message for Fields cut to Cut bytes after the set header), "data" (records of DataFields
-// under set id ID).
+// message for Fields cut to Cut bytes after the set header), "badcount" (template message for
+// Fields whose field count is overwritten with Count, larger than the specifiers present), "data"
+// (records of DataFields under set id ID). A template that declares a known element with a length
+// other than the registry's makes its key "unjudged" (the library ignores declared lengths of known
+// elements; whether it should is outside the statement), but must not influence any other key.
 type Step struct {
 	Kind   string        `json:"kind"`
 	Domain uint32        `json:"domain"`
 	ID     uint16        `json:"id"`
 	Fields []gen.TField  `json:"fields,omitempty"`
 	Cut    int           `json:"cut,omitempty"`
+	Count  int           `json:"count,omitempty"` // kind badcount: the field count written into the record header
 	Recs   [][]ref.Value `json:"recs,omitempty"`
 }
 
@@ -51,7 +55,7 @@ func TestMain(m *testing.M) {
 	if rp := ev.LoadReplay(); rp != nil {
 		ev.RunReplay(rp, func(c Case) *ev.Failure { return runCase(c, nil) })
 	}
-	rec = ev.New("C04", "histories of template / undecodable-template / data messages over 2 observation domains x 2 template ids x 3 decoding modes x tcp/udp: exhaustive over a 28-symbol alphabet to depth 3 (quick) / 4 (thorough), rapid histories up to length 60 with random templates beyond; non-trivial = a data message is judged after a replacement or an invalidation of its template, or the same id is live in both domains; distinct by hash of the history",
+	rec = ev.New("C04", "histories of template / undecodable-template / data messages over 2 observation domains x 2 template ids x 3 decoding modes x tcp/udp: exhaustive over a 30-symbol alphabet and over a second 14-symbol alphabet (re-announcements differing only in an unknown element's declared length, field counts far beyond the specifiers present, a known octet-array element declared with a fixed length in the other domain) to depth 3 (quick) / 4 (thorough), rapid histories up to length 60 with random templates beyond; non-trivial = a data message is judged after a replacement or an invalidation of its template, or the same id is live in both domains; distinct by hash of the history",
 		"reference codec refipfix and an independent map model of the template table", "verif hooks VerifDecodePacket / VerifTemplates")
 	code := m.Run()
 	rec.Write()
@@ -69,6 +73,10 @@ func (s Step) packet() []byte {
 			m = m[:20+s.Cut]
 		}
 		return gen.FixLengths(append([]byte(nil), m...))
+	case "badcount":
+		m := ref.TemplateMessage(h, gen.Wire(s.ID, s.Fields))
+		m[22], m[23] = byte(s.Count>>8), byte(s.Count)
+		return m
 	}
 	var body []byte
 	view := gen.View(s.Fields)
@@ -91,6 +99,7 @@ func runCase(c Case, st *Stats) *ev.Failure {
 	model := map[glue.TplKey][]ref.Field{}
 	replaced := map[glue.TplKey]bool{}
 	invalidated := map[glue.TplKey]bool{}
+	unjudged := map[glue.TplKey]bool{}
 	for i, s := range c.Steps {
 		key := glue.TplKey{Domain: s.Domain, ID: s.ID}
 		pkt := s.packet()
@@ -115,6 +124,12 @@ func runCase(c Case, st *Stats) *ev.Failure {
 				}
 				model[key] = gen.View(s.Fields)
 				delete(invalidated, key)
+				delete(unjudged, key)
+				for _, f := range s.Fields {
+					if !f.Unknown && f.WireLen != f.Len {
+						unjudged[key] = true
+					}
+				}
 			} else {
 				if dr.Err == nil {
 					return ev.Failf("step %d: template with an unknown element accepted in strict mode", i)
@@ -124,6 +139,15 @@ func runCase(c Case, st *Stats) *ev.Failure {
 				}
 				delete(model, key)
 			}
+		case "badcount":
+			if dr.Err == nil {
+				return ev.Failf("step %d: template record announcing %d fields but carrying %d accepted", i, s.Count, len(s.Fields))
+			}
+			if _, had := model[key]; had {
+				invalidated[key] = true
+			}
+			delete(model, key)
+			delete(unjudged, key)
 		case "trunc":
 			if dr.Err == nil {
 				return ev.Failf("step %d: truncated template (cut %d) accepted", i, s.Cut)
@@ -136,8 +160,12 @@ func runCase(c Case, st *Stats) *ev.Failure {
 					invalidated[key] = true
 				}
 				delete(model, key)
+				delete(unjudged, key)
 			}
 		case "data":
+			if unjudged[key] {
+				break
+			}
 			fields, ok := model[key]
 			if !ok {
 				if dr.Err == nil {
@@ -194,7 +222,7 @@ func runCase(c Case, st *Stats) *ev.Failure {
 				return ev.Failf("after step %d: template %+v has %d fields, model %d", i, k, len(sf), len(fs))
 			}
 			for j := range fs {
-				if sf[j].ID != fs[j].ID || sf[j].Ent != fs[j].Ent || sf[j].Len != fs[j].Len {
+				if sf[j].ID != fs[j].ID || sf[j].Ent != fs[j].Ent || (sf[j].Len != fs[j].Len && !unjudged[k]) {
 					return ev.Failf("after step %d: template %+v field %d is %+v, model %+v", i, k, j, sf[j], fs[j])
 				}
 			}
@@ -274,6 +302,30 @@ func TestC04(t *testing.T) {
 			Step{Kind: "data", Domain: d, ID: 256, Fields: U, Recs: recU},
 		)
 	}
+	// second alphabet (one id, both domains): re-announcements that differ only in the declared
+	// length of an unknown element, field counts far beyond the specifiers present, and a known
+	// octet-array element declared with a fixed length in the other domain
+	unk5 := unk
+	unk5.Len, unk5.WireLen = 5, 5
+	unkV := unk
+	unkV.Len, unkV.WireLen = ref.VarLen, ref.VarLen
+	U5 := []gen.TField{A[0], unk5, A[1]}
+	UV := []gen.TField{A[0], unkV, A[1]}
+	recU5 := [][]ref.Value{{{B: []byte{10, 0, 0, 4}}, {B: []byte{1, 2, 3, 4, 5}}, {U: 17}}}
+	recUV := [][]ref.Value{{{B: []byte{10, 0, 0, 5}}, {B: []byte{9, 8}}, {U: 6}}}
+	oct := named("mplsTopLabelStackSection", 0)
+	octFixed := oct
+	octFixed.WireLen = 4
+	V := []gen.TField{oct, A[1]}
+	W := []gen.TField{octFixed, A[1]}
+	recV := [][]ref.Value{{{B: []byte{0xAA, 0xBB, 0xCC}}, {U: 6}}, {{B: []byte{}}, {U: 17}}}
+	alphabet2 := []Step{
+		{Kind: "tpl", Domain: 1, ID: 256, Fields: U}, {Kind: "tpl", Domain: 1, ID: 256, Fields: U5}, {Kind: "tpl", Domain: 1, ID: 256, Fields: UV},
+		{Kind: "data", Domain: 1, ID: 256, Fields: U, Recs: recU}, {Kind: "data", Domain: 1, ID: 256, Fields: U5, Recs: recU5}, {Kind: "data", Domain: 1, ID: 256, Fields: UV, Recs: recUV},
+		{Kind: "tpl", Domain: 1, ID: 256, Fields: A}, {Kind: "data", Domain: 1, ID: 256, Fields: A, Recs: recA},
+		{Kind: "badcount", Domain: 1, ID: 256, Fields: A, Count: 0xFFFF}, {Kind: "badcount", Domain: 1, ID: 256, Fields: B, Count: 0x4000}, {Kind: "badcount", Domain: 1, ID: 256, Fields: A, Count: 3},
+		{Kind: "tpl", Domain: 2, ID: 256, Fields: W}, {Kind: "tpl", Domain: 1, ID: 256, Fields: V}, {Kind: "data", Domain: 1, ID: 256, Fields: V, Recs: recV},
+	}
 	depth := 3
 	if rec.Thorough() {
 		depth = 4
@@ -312,6 +364,16 @@ func TestC04(t *testing.T) {
 			}
 		}
 	}
+	first := alphabet
+	alphabet = alphabet2
+	for _, mode := range []string{"Strict", "LenientKeepUnknown", "LenientDropUnknown"} {
+		for _, proto := range []string{"tcp", "udp"} {
+			if depth > 0 {
+				enum(nil, mode, proto)
+			}
+		}
+	}
+	alphabet = first
 	if failed {
 		return
 	}
@@ -319,6 +381,7 @@ func TestC04(t *testing.T) {
 		rec.SetExhaustive()
 		rec.Extra("exhaustive_depth", depth)
 		rec.Extra("alphabet_size", len(alphabet))
+		rec.Extra("second_alphabet_size", len(alphabet2))
 	}
 	ev.Rapid(t, rec, "random", rec.Scale(4000, 400000), genCase, func(c Case) *ev.Failure { return runRecorded("random", c) })
 }
@@ -344,7 +407,11 @@ func genCase(t *rapid.T) Case {
 				if rapid.IntRange(0, 9).Draw(t, "u") < punk {
 					s.Fields = append(s.Fields, pool.UnknownField(t, false))
 				} else {
-					s.Fields = append(s.Fields, pool.KnownField(t))
+					f := pool.KnownField(t)
+					if f.Type == ref.TOctets && f.Len == ref.VarLen && rapid.IntRange(0, 2).Draw(t, "fixoct") == 0 {
+						f.WireLen = uint16(rapid.IntRange(1, 8).Draw(t, "octlen")) // makes this key unjudged
+					}
+					s.Fields = append(s.Fields, f)
 				}
 			}
 			s.Kind = "tpl"
@@ -352,6 +419,23 @@ func genCase(t *rapid.T) Case {
 		case kind == 3: // an earlier template again (refresh or replacement under another id)
 			s.Kind = "tpl"
 			s.Fields = tpls[rapid.IntRange(0, len(tpls)-1).Draw(t, "which")]
+		case kind == 4 && rapid.Bool().Draw(t, "relen"):
+			// an earlier template re-announced with the declared length of one unknown element changed
+			s.Kind = "tpl"
+			src := tpls[rapid.IntRange(0, len(tpls)-1).Draw(t, "which")]
+			s.Fields = append([]gen.TField(nil), src...)
+			for j := range s.Fields {
+				if s.Fields[j].Unknown {
+					l := rapid.SampledFrom([]uint16{1, 2, 4, 6, 8, ref.VarLen}).Draw(t, "newlen")
+					s.Fields[j].Len, s.Fields[j].WireLen = l, l
+					break
+				}
+			}
+			tpls = append(tpls, s.Fields)
+		case kind == 4 && rapid.Bool().Draw(t, "badcount"):
+			s.Kind = "badcount"
+			s.Fields = tpls[rapid.IntRange(0, len(tpls)-1).Draw(t, "which")]
+			s.Count = rapid.SampledFrom([]int{len(s.Fields) + 1, 255, 256, 0x4000, 0x7FFF, 0xFFFF}).Draw(t, "count")
 		case kind == 4:
 			s.Kind = "trunc"
 			s.Fields = tpls[rapid.IntRange(0, len(tpls)-1).Draw(t, "which")]
